@@ -11,7 +11,7 @@ import re
 from .. import boot, canon, pool, corpus
 
 ID = 'C01'
-BUDGET = {'quick': 420, 'thorough': 3000}
+BUDGET = {'quick': 900, 'thorough': 3600}
 
 SIGMA21 = ['a', '.', '(', ')', '=', '\n', ' ', 'def ', ':', 'import ', ',', '[', ']', '*', "'",
            'class ', 'lambda ', 'for ', 'in ', '@', '1']
